@@ -206,6 +206,7 @@ type Explorer struct {
 	M        *Model
 	P        *Program
 	touches  map[*ssa.Function]bool
+	statePkgs map[string]bool // packages holding state-touching code (keepers, servers, their utils): helpers there are inlined
 	loops    map[*ssa.Function]*loopInfo
 	outcomes []*Outcome
 	pathCap  int
@@ -220,6 +221,10 @@ type Explorer struct {
 func NewExplorer(m *Model) *Explorer {
 	x := &Explorer{M: m, P: m.P, loops: map[*ssa.Function]*loopInfo{}, pathCap: 20000, maxDepth: 7}
 	x.touches = touchesState(m)
+	x.statePkgs = map[string]bool{}
+	for fn := range x.touches {
+		x.statePkgs[fnPkgPath(fn)] = true
+	}
 	return x
 }
 
@@ -829,6 +834,9 @@ func (x *Explorer) step(fr *Frame, st *State, in ssa.Instruction) {
 		fr.env[ins] = &ClosureV{Fn: ins.Fn.(*ssa.Function), Binds: binds}
 	case *ssa.MakeSlice:
 		o := st.newObj("array", ins.Type())
+		if n, ok := constInt(ins.Len); ok && n == 0 {
+			o.Origin = "make:0" // empty: a later append chain has exactly the appended elements
+		}
 		fr.env[ins] = &Ptr{O: o.ID}
 	case *ssa.MakeMap:
 		o := st.newObj("map", ins.Type())
